@@ -6,6 +6,31 @@ delivered and its request is not sent yet (`inWindow`) —, and that the executi
 import Proofs.Lemmas.CrashSeq
 namespace Asl.Crash
 
+/-- `n` Task visits in a row -/
+def tasks : Nat → Sk
+  | 0 => .done
+  | n + 1 => .task 0 (tasks n)
+
+/-- the one event in flight: the visit of the first of `m` remaining Tasks -/
+def evm (id m : Nat) (start red una : Bool) : QEv :=
+  { id := id, kind := .visit (tasks m) [] start none, redelivered := red, unacked := una }
+
+def rpm (id : Nat) (red una : Bool) : QRp := { corr := id, redelivered := red, unacked := una }
+
+/-- the execution has ended -/
+def cfgEnd (nextId : Nat) (sent : List Nat) (running : Nat) : Cfg :=
+  { sent := sent, running := running, notes := 1, nextId := nextId }
+
+/-- Task visits still to come -/
+def skLen : Sk → Nat
+  | .task _ r => skLen r + 1
+  | _ => 0
+
+theorem skLen_tasks (m : Nat) : skLen (tasks m) = m := by
+  induction m with
+  | zero => rfl
+  | succ m ih => simp [tasks, skLen, ih]
+
 def qF1 : Quirks := { requestFromTimer := true }
 
 /-- the window of C04-F1: a deferred handler is armed for an event whose request has not been sent -/
@@ -72,7 +97,7 @@ theorem inv1_init (N : Nat) : Inv1 N (init (tasks N)) := by
 
 macro "crash_simp1" " at " h:ident : tactic => `(tactic|
   simp [stepW, inWindow, step, cfgOf1, cfgEnd, findEv, evm, markEv, markRpL, tasks, qF1, Cfg.handler, Cfg.vol, Cfg.withVol,
-    Cfg.act, Cfg.crash, insertNat, rpm, onReply, advance, fuelOf, removeFirst] at $h:ident)
+    Cfg.act, Cfg.crash, insertNat, rpm, onReply, advance, fuelOf, removeFirst, inDeadJoin, evStack, requestOf, batchKey, evJids, evOwner, deadJid, dropEv, waitVisit, hasRecords] at $h:ident)
 
 theorem inv1_of_eq {N : Nat} {c d : Cfg} (h : Inv1 N d) (e : d = c) : Inv1 N c := e ▸ h
 
@@ -350,7 +375,7 @@ theorem inv1_step (c c' : Cfg) (op : Op) (h : Inv1 N c) (hs : stepW qF1 c op = s
 def mu1 (c : Cfg) : Nat :=
   match c.evq with
   | [e] => (match e.kind with
-    | .visit todo _ _ => 4 * skLen todo + (if e.unacked then (if c.timers.isEmpty then 1 else 2) else 3)
+    | .visit todo _ _ _ => 4 * skLen todo + (if e.unacked then (if c.timers.isEmpty then 1 else 2) else 3)
     | _ => 0)
   | _ => 0
 
@@ -376,27 +401,27 @@ theorem inv1_progress (c : Cfg) (h : Inv1 N c) :
       | zero =>
         cases start
         · exact key (.ev id) (cfgEnd (id + 1) sent running) (by simp) (by simp [nextOp, cfgOf1, evm])
-            (by simp [step, cfgOf1, cfgEnd, findEv, evm, markEv, tasks, qF1, Cfg.handler, Cfg.vol, Cfg.withVol, Cfg.act, advance, fuelOf])
+            (by simp [step, inDeadJoin, evStack, requestOf, batchKey, evJids, evOwner, deadJid, dropEv, waitVisit, hasRecords, cfgOf1, cfgEnd, findEv, evm, markEv, tasks, qF1, Cfg.handler, Cfg.vol, Cfg.withVol, Cfg.act, advance, fuelOf])
             (by simp [mu1, cfgOf1, cfgEnd, evm, tasks, skLen])
         · exact key (.ev id) (cfgEnd (id + 1) sent (running + 1)) (by simp) (by simp [nextOp, cfgOf1, evm])
-            (by simp [step, cfgOf1, cfgEnd, findEv, evm, markEv, tasks, qF1, Cfg.handler, Cfg.vol, Cfg.withVol, Cfg.act, advance, fuelOf])
+            (by simp [step, inDeadJoin, evStack, requestOf, batchKey, evJids, evOwner, deadJid, dropEv, waitVisit, hasRecords, cfgOf1, cfgEnd, findEv, evm, markEv, tasks, qF1, Cfg.handler, Cfg.vol, Cfg.withVol, Cfg.act, advance, fuelOf])
             (by simp [mu1, cfgOf1, cfgEnd, evm, tasks, skLen])
       | succ m =>
         cases start
         · exact key (.ev id) (cfgOf1 id (m + 1) false false false sent running .armedNew) (by simp)
             (by simp [nextOp, cfgOf1, evm])
-            (by simp [step, cfgOf1, findEv, evm, markEv, tasks, qF1, Cfg.handler, Cfg.vol, Cfg.withVol, Cfg.act, insertNat])
+            (by simp [step, inDeadJoin, evStack, requestOf, batchKey, evJids, evOwner, deadJid, dropEv, waitVisit, hasRecords, cfgOf1, findEv, evm, markEv, tasks, qF1, Cfg.handler, Cfg.vol, Cfg.withVol, Cfg.act, insertNat])
             (by simp [mu1, cfgOf1, evm])
         · exact key (.ev id) (cfgOf1 id (m + 1) true false false sent (running + 1) .armedNew) (by simp)
             (by simp [nextOp, cfgOf1, evm])
-            (by simp [step, cfgOf1, findEv, evm, markEv, tasks, qF1, Cfg.handler, Cfg.vol, Cfg.withVol, Cfg.act, insertNat])
+            (by simp [step, inDeadJoin, evStack, requestOf, batchKey, evJids, evOwner, deadJid, dropEv, waitVisit, hasRecords, cfgOf1, findEv, evm, markEv, tasks, qF1, Cfg.handler, Cfg.vol, Cfg.withVol, Cfg.act, insertNat])
             (by simp [mu1, cfgOf1, evm])
     | armedNew =>
       have hm1 := hm (by simp)
       obtain ⟨m, rfl⟩ : ∃ k, m = k + 1 := ⟨m - 1, by omega⟩
       exact key (.tm id) (cfgOf1 id (m + 1) start false false (sent ++ [id]) running .waiting) (by simp)
         (by simp [nextOp, cfgOf1])
-        (by simp [step, cfgOf1, findEv, evm, tasks, qF1, Cfg.handler, Cfg.vol, Cfg.withVol, Cfg.act, insertNat, rpm])
+        (by simp [step, inDeadJoin, evStack, requestOf, batchKey, evJids, evOwner, deadJid, dropEv, waitVisit, hasRecords, cfgOf1, findEv, evm, tasks, qF1, Cfg.handler, Cfg.vol, Cfg.withVol, Cfg.act, insertNat, rpm])
         (by simp [mu1, cfgOf1, evm])
     | waiting =>
       have hm1 := hm (by simp)
@@ -404,45 +429,45 @@ theorem inv1_progress (c : Cfg) (h : Inv1 N c) :
       cases m with
       | zero =>
         exact key (.rp id) (cfgEnd (id + 1) sent running) (by simp) (by simp [nextOp, cfgOf1, evm, rpm])
-          (by simp [step, cfgOf1, cfgEnd, findEv, evm, markRpL, tasks, qF1, Cfg.handler, Cfg.vol, Cfg.withVol, Cfg.act, rpm, onReply, advance, fuelOf, removeFirst])
+          (by simp [step, inDeadJoin, evStack, requestOf, batchKey, evJids, evOwner, deadJid, dropEv, waitVisit, hasRecords, cfgOf1, cfgEnd, findEv, evm, markRpL, tasks, qF1, Cfg.handler, Cfg.vol, Cfg.withVol, Cfg.act, rpm, onReply, advance, fuelOf, removeFirst])
           (by simp [mu1, cfgOf1, cfgEnd, evm, tasks, skLen])
       | succ m =>
         exact key (.rp id) (cfgOf1 (id + 1) (m + 1) false false false sent running .fresh) (by simp) (by simp [nextOp, cfgOf1, evm, rpm])
-          (by simp [step, cfgOf1, findEv, evm, markRpL, tasks, qF1, Cfg.handler, Cfg.vol, Cfg.withVol, Cfg.act, rpm, onReply, advance, fuelOf, removeFirst])
+          (by simp [step, inDeadJoin, evStack, requestOf, batchKey, evJids, evOwner, deadJid, dropEv, waitVisit, hasRecords, cfgOf1, findEv, evm, markRpL, tasks, qF1, Cfg.handler, Cfg.vol, Cfg.withVol, Cfg.act, rpm, onReply, advance, fuelOf, removeFirst])
           (by simp [mu1, cfgOf1, evm, tasks, skLen, skLen_tasks]; omega)
     | crashed =>
       have hm1 := hm (by simp)
       obtain ⟨m, rfl⟩ : ∃ k, m = k + 1 := ⟨m - 1, by omega⟩
       cases start
       · exact key (.ev id) (cfgOf1 id (m + 1) false true rr sent running .armedRe) (by simp) (by simp [nextOp, cfgOf1, evm])
-          (by simp [step, cfgOf1, findEv, evm, markEv, tasks, qF1, Cfg.handler, Cfg.vol, Cfg.withVol, Cfg.act, insertNat, rpm])
+          (by simp [step, inDeadJoin, evStack, requestOf, batchKey, evJids, evOwner, deadJid, dropEv, waitVisit, hasRecords, cfgOf1, findEv, evm, markEv, tasks, qF1, Cfg.handler, Cfg.vol, Cfg.withVol, Cfg.act, insertNat, rpm])
           (by simp [mu1, cfgOf1, evm])
       · exact key (.ev id) (cfgOf1 id (m + 1) true true rr sent (running + 1) .armedRe) (by simp) (by simp [nextOp, cfgOf1, evm])
-          (by simp [step, cfgOf1, findEv, evm, markEv, tasks, qF1, Cfg.handler, Cfg.vol, Cfg.withVol, Cfg.act, insertNat, rpm])
+          (by simp [step, inDeadJoin, evStack, requestOf, batchKey, evJids, evOwner, deadJid, dropEv, waitVisit, hasRecords, cfgOf1, findEv, evm, markEv, tasks, qF1, Cfg.handler, Cfg.vol, Cfg.withVol, Cfg.act, insertNat, rpm])
           (by simp [mu1, cfgOf1, evm])
     | armedRe =>
       have hm1 := hm (by simp)
       obtain ⟨m, rfl⟩ : ∃ k, m = k + 1 := ⟨m - 1, by omega⟩
       exact key (.tm id) (cfgOf1 id (m + 1) start true rr sent running .waiting) (by simp)
         (by simp [nextOp, cfgOf1])
-        (by simp [step, cfgOf1, findEv, evm, tasks, qF1, Cfg.handler, Cfg.vol, Cfg.withVol, Cfg.act, insertNat, rpm])
+        (by simp [step, inDeadJoin, evStack, requestOf, batchKey, evJids, evOwner, deadJid, dropEv, waitVisit, hasRecords, cfgOf1, findEv, evm, tasks, qF1, Cfg.handler, Cfg.vol, Cfg.withVol, Cfg.act, insertNat, rpm])
         (by simp [mu1, cfgOf1, evm])
     | orphan =>
       have hm1 := hm (by simp)
       obtain ⟨m, rfl⟩ : ∃ k, m = k + 1 := ⟨m - 1, by omega⟩
       cases start
       · exact key (.ev id) (cfgOf1 id (m + 1) false true rr sent running .armedOrph) (by simp) (by simp [nextOp, cfgOf1, evm])
-          (by simp [step, cfgOf1, findEv, evm, markEv, tasks, qF1, Cfg.handler, Cfg.vol, Cfg.withVol, Cfg.act, insertNat, rpm])
+          (by simp [step, inDeadJoin, evStack, requestOf, batchKey, evJids, evOwner, deadJid, dropEv, waitVisit, hasRecords, cfgOf1, findEv, evm, markEv, tasks, qF1, Cfg.handler, Cfg.vol, Cfg.withVol, Cfg.act, insertNat, rpm])
           (by simp [mu1, cfgOf1, evm])
       · exact key (.ev id) (cfgOf1 id (m + 1) true true rr sent (running + 1) .armedOrph) (by simp) (by simp [nextOp, cfgOf1, evm])
-          (by simp [step, cfgOf1, findEv, evm, markEv, tasks, qF1, Cfg.handler, Cfg.vol, Cfg.withVol, Cfg.act, insertNat, rpm])
+          (by simp [step, inDeadJoin, evStack, requestOf, batchKey, evJids, evOwner, deadJid, dropEv, waitVisit, hasRecords, cfgOf1, findEv, evm, markEv, tasks, qF1, Cfg.handler, Cfg.vol, Cfg.withVol, Cfg.act, insertNat, rpm])
           (by simp [mu1, cfgOf1, evm])
     | armedOrph =>
       have hm1 := hm (by simp)
       obtain ⟨m, rfl⟩ : ∃ k, m = k + 1 := ⟨m - 1, by omega⟩
       exact key (.tm id) (cfgOf1 id (m + 1) start true rr sent running .matched) (by simp)
         (by simp [nextOp, cfgOf1])
-        (by simp [step, cfgOf1, findEv, evm, tasks, qF1, Cfg.handler, Cfg.vol, Cfg.withVol, Cfg.act, insertNat, rpm])
+        (by simp [step, inDeadJoin, evStack, requestOf, batchKey, evJids, evOwner, deadJid, dropEv, waitVisit, hasRecords, cfgOf1, findEv, evm, tasks, qF1, Cfg.handler, Cfg.vol, Cfg.withVol, Cfg.act, insertNat, rpm])
         (by simp [mu1, cfgOf1, evm])
     | matched =>
       have hm1 := hm (by simp)
@@ -450,12 +475,17 @@ theorem inv1_progress (c : Cfg) (h : Inv1 N c) :
       cases m with
       | zero =>
         exact key .tick (cfgEnd (id + 1) sent running) (by simp) (by simp [nextOp, cfgOf1, evm, rpm])
-          (by simp [step, cfgOf1, cfgEnd, findEv, evm, tasks, qF1, Cfg.handler, Cfg.vol, Cfg.withVol, Cfg.act, rpm, onReply, advance, fuelOf, removeFirst])
+          (by simp [step, inDeadJoin, evStack, requestOf, batchKey, evJids, evOwner, deadJid, dropEv, waitVisit, hasRecords, cfgOf1, cfgEnd, findEv, evm, tasks, qF1, Cfg.handler, Cfg.vol, Cfg.withVol, Cfg.act, rpm, onReply, advance, fuelOf, removeFirst])
           (by simp [mu1, cfgOf1, cfgEnd, evm, tasks, skLen])
       | succ m =>
         exact key .tick (cfgOf1 (id + 1) (m + 1) false false false sent running .fresh) (by simp) (by simp [nextOp, cfgOf1, evm, rpm])
-          (by simp [step, cfgOf1, findEv, evm, tasks, qF1, Cfg.handler, Cfg.vol, Cfg.withVol, Cfg.act, rpm, onReply, advance, fuelOf, removeFirst])
+          (by simp [step, inDeadJoin, evStack, requestOf, batchKey, evJids, evOwner, deadJid, dropEv, waitVisit, hasRecords, cfgOf1, findEv, evm, tasks, qF1, Cfg.handler, Cfg.vol, Cfg.withVol, Cfg.act, rpm, onReply, advance, fuelOf, removeFirst])
           (by simp [mu1, cfgOf1, evm, tasks, skLen, skLen_tasks]; omega)
+
+theorem inv1_nodiv (c : Cfg) (h : Inv1 N c) : c.diverged = false := by
+  cases h with
+  | ended => rfl
+  | run id m start red rr sent running p => cases p <;> rfl
 
 theorem drain1_ends (fuel : Nat) (c : Cfg) (h : Inv1 N c) (hf : mu1 c ≤ fuel) :
     ∃ nextId sent running, drain qF1 fuel c = cfgEnd nextId sent running ∧ sent.Nodup ∧ sent.length = N := by
@@ -467,7 +497,7 @@ theorem drain1_ends (fuel : Nat) (c : Cfg) (h : Inv1 N c) (hf : mu1 c ≤ fuel) 
   | succ fuel ih =>
     rcases inv1_progress c h with ⟨nextId, sent, running, rfl, hnd, hlen⟩ | ⟨op, c', hn, _, hs, hi, hlt⟩
     · exact ⟨nextId, sent, running, by simp [drain, nextOp, cfgEnd], hnd, hlen⟩
-    · simp only [drain, hn, hs]
+    · simp only [drain, hn, hs, inv1_nodiv c h, Bool.false_eq_true, if_false]
       exact ih c' hi (by omega)
 
 theorem inv1_run (c c' : Cfg) (ops : List Op) (h : Inv1 N c) (hr : runW qF1 c ops = some c') : Inv1 N c' := by
